@@ -191,7 +191,7 @@ pub fn run(ctx: &Ctx) -> Report {
         }
         rep.exhaustive(&format!("{}/{}: all {} op sequences of depth {} over a {}-op alphabet", e.name(), kind.name(), count, depth, alpha.len()));
         // ---- (3) seeded random histories over every backend and data pattern ----
-        let nhist = ctx.pick(4, 300, 12000);
+        let nhist = ctx.pick(4, 2000, 20000);
         let o = GenOpts { seeks: false, io: false, codes: false, clones: true, pos: true, max_read_code_len: 0 };
         for hix in 0..nhist {
             let pat = Pattern::ALL[hix % Pattern::ALL.len()];
